@@ -543,6 +543,15 @@ func VerifC10_UnsetKey() {
 // VerifC10_LoadMarshal: PathNode.Load (recursive) + Marshal reproduces the message.
 func VerifC10_LoadMarshal() {
 	e := verifC10NewEnv(1, 1, vrt.Param("NRS"), vrt.Param("NRP"), vrt.Param("NMS"), vrt.Param("NMI"))
+	// containers at the root as well (their children are inspected below)
+	for i := 0; i < vrt.Param("NMS"); i++ {
+		e.outer.msK = append(e.outer.msK, []byte{'k', byte('0' + i)})
+		e.outer.msV = append(e.outer.msV, verifSmallI32())
+	}
+	for i := 0; i < vrt.Param("NMI"); i++ {
+		e.outer.miK = append(e.outer.miK, uint64(10+i))
+		e.outer.miV = append(e.outer.miV, verifC10Str(1))
+	}
 	src := e.encode()
 	desc := verifC10Outer()
 	v := NewRootValue(desc, src)
@@ -552,6 +561,34 @@ func VerifC10_LoadMarshal() {
 	vrt.Assert(err == nil, "C10.load.noerror")
 	if err != nil {
 		return
+	}
+	// the children of the loaded tree are usable nodes: a map / list child reads its entries with the
+	// declared key and element kinds (lazy children carry them from the descriptor)
+	for i := range pn.Next {
+		c := &pn.Next[i]
+		if c.Path.Type() != PathFieldId {
+			continue
+		}
+		switch c.Path.id() {
+		case 6:
+			if len(e.outer.msK) > 0 {
+				n := c.Node.GetByStr(string(e.outer.msK[0]))
+				v, err := n.Int()
+				vrt.Assert(err == nil && uint64(int64(v)) == e.outer.msV[0], "C10.load.child.map-string-key.value")
+			}
+		case 7:
+			if len(e.outer.miK) > 0 {
+				n := c.Node.GetByInt(int(e.outer.miK[0]))
+				v, err := n.String()
+				vrt.Assert(err == nil && v == string(e.outer.miV[0]), "C10.load.child.map-int-key.value")
+			}
+		case 4:
+			if len(e.outer.rs) > 0 {
+				n := c.Node.Index(0)
+				v, err := n.String()
+				vrt.Assert(err == nil && v == string(e.outer.rs[0]), "C10.load.child.list.value")
+			}
+		}
 	}
 	out, err := pn.Marshal(opts)
 	vrt.Assert(err == nil, "C10.marshal.noerror")
